@@ -882,6 +882,7 @@ func checkC06(c *Check, p *Program) {
 	c.Floor("C06.types", "registered datapoint types", len(dts), 174)
 	checkStringCharsets(c, p, dts)
 	checkDecodeStores(c, p, dts, "C06.keeps")
+	checkDecodeInputReadOnly(c, p, dts, "C06.input")
 	memo := map[*ssa.Function]lenGuard{}
 	proved, outside := []string{}, []string{}
 	for _, dt := range dts {
@@ -890,7 +891,8 @@ func checkC06(c *Check, p *Program) {
 		want, _ := specPayloadLen(dt.Main)
 		g := lenGuardOf(p, dt.Unpack, memo)
 		if want == -1 {
-			outside = append(outside, dt.Key+" (variable length string)")
+			outside = append(outside, dt.Key+" (variable length string: shape rule)")
+			checkVarStringIdentity(c, p, dt)
 			continue
 		}
 		// (1) accepted within clamp for clamping float types
@@ -1288,4 +1290,294 @@ func checkStringCharsets(c *Check, p *Program, dts []dptType) {
 		c.Decide(okDec && nApp >= 1 && nKeep >= 1 && float64(maxDec) <= keep && keep <= 255, "C06.charset", name+" decoded characters survive re-encoding", pos, fmt.Sprintf("decoder yields characters <= %d, encoder keeps characters <= %g", maxDec, keep), fmt.Sprintf("the decoder can yield the character %d but the encoder keeps only characters <= %g (others are replaced): re-encoding a decoded string changes it (decoder understood=%v, append sites=%d, keep sites=%d)", maxDec, keep, okDec, nApp, nKeep))
 	}
 	c.Floor("C06.charset", "fixed-length string types", n, 2)
+}
+
+// checkVarStringIdentity: the variable-length character type (28.001).  The
+// decoder takes the octets between the leading octet and the terminator as
+// they are; the encoder writes a zero octet, the characters as they are and
+// a zero terminator.  Judged on the shape of both functions: the decoder's
+// value is string(data[1:len(data)-1]) and the encoder's result is made of
+// the segments [0] ++ bytes(receiver) ++ [0] (by append, or by copy into a
+// zeroed slice of len+2).  A transcoding, filtering or trimming step between
+// the receiver and the output is a value the rule does not recognise.
+func checkVarStringIdentity(c *Check, p *Program, dt dptType) {
+	name := dptName(dt)
+	key := name + " Pack(Unpack(data)) copies the characters unchanged"
+	pos := p.Pos(dt.Unpack.Pos())
+	un, pk := dt.Unpack, dt.Pack
+	if un == nil || pk == nil || len(un.Params) != 2 || len(pk.Params) != 1 {
+		c.Fail("C06.identity", key, pos, "Pack/Unpack of the variable-length string type not found in the expected form")
+		return
+	}
+	strip := func(v ssa.Value) ssa.Value {
+		for i := 0; i < 6; i++ {
+			switch x := v.(type) {
+			case *ssa.Convert:
+				v = x.X
+			case *ssa.ChangeType:
+				v = x.X
+			default:
+				return unspill(v)
+			}
+		}
+		return v
+	}
+	// decoder
+	data := un.Params[1]
+	okU, nSt := true, 0
+	why := ""
+	instrsOf(un, func(in ssa.Instruction) {
+		st, ok := in.(*ssa.Store)
+		if !ok || unspill(st.Addr) != ssa.Value(un.Params[0]) {
+			return
+		}
+		nSt++
+		sl, ok := strip(st.Val).(*ssa.Slice)
+		if !ok || sl.X != ssa.Value(data) || sl.Max != nil {
+			okU, why = false, "the decoded value is not a sub-slice of the payload converted to a string"
+			return
+		}
+		lo, okLo := constInt(sl.Low)
+		hiOK := false
+		if b, ok := sl.High.(*ssa.BinOp); ok && b.Op == token.SUB {
+			if k, isK := constInt(b.Y); isK && k == 1 {
+				if l, isL := b.X.(*ssa.Call); isL && builtinName(l) == "len" && l.Common().Args[0] == ssa.Value(data) {
+					hiOK = true
+				}
+			}
+		}
+		if !okLo || lo != 1 || !hiOK {
+			okU, why = false, "the decoded characters are not data[1:len(data)-1]"
+		}
+	})
+	if nSt == 0 {
+		okU, why = false, "the decoder never stores the receiver"
+	}
+	// encoder: segments of the returned slice
+	recv := pk.Params[0]
+	var segs func(v ssa.Value, depth int) ([]string, bool)
+	zeroArr := func(v ssa.Value) (int, bool) {
+		sl, ok := v.(*ssa.Slice)
+		if !ok || sl.Low != nil || sl.High != nil {
+			return 0, false
+		}
+		al, ok := sl.X.(*ssa.Alloc)
+		if !ok {
+			return 0, false
+		}
+		at, ok := deref(al.Type()).Underlying().(*types.Array)
+		if !ok {
+			return 0, false
+		}
+		for _, u := range usesOf(al) {
+			if ia, ok := u.(*ssa.IndexAddr); ok {
+				for _, uu := range usesOf(ia) {
+					if st, ok := uu.(*ssa.Store); ok {
+						if k, isK := constInt(st.Val); !isK || k != 0 {
+							return 0, false
+						}
+					}
+				}
+			}
+		}
+		return int(at.Len()), true
+	}
+	segs = func(v ssa.Value, depth int) ([]string, bool) {
+		if depth > 8 {
+			return nil, false
+		}
+		switch x := v.(type) {
+		case *ssa.MakeSlice:
+			if k, ok := constInt(x.Len); ok && k >= 0 && k <= 4 {
+				out := []string{}
+				for i := int64(0); i < k; i++ {
+					out = append(out, "0")
+				}
+				return out, true
+			}
+			return nil, false
+		case *ssa.Call:
+			if builtinName(x) != "append" || len(x.Common().Args) != 2 {
+				return nil, false
+			}
+			head, ok := segs(x.Common().Args[0], depth+1)
+			if !ok {
+				return nil, false
+			}
+			a1 := x.Common().Args[1]
+			if strip(a1) == ssa.Value(recv) {
+				return append(head, "recv"), true
+			}
+			if n, ok := zeroArr(a1); ok {
+				for i := 0; i < n; i++ {
+					head = append(head, "0")
+				}
+				return head, true
+			}
+			return nil, false
+		}
+		return nil, false
+	}
+	okP, whyP := true, ""
+	nRet := 0
+	for _, r := range returnsOf(pk) {
+		if len(r.Results) != 1 {
+			continue
+		}
+		nRet++
+		rv := r.Results[0]
+		sg, ok := segs(rv, 0)
+		if !ok {
+			// the copy form: buf := make([]byte, len(d)+2); copy(buf[1:], d)
+			if mk, isMk := rv.(*ssa.MakeSlice); isMk {
+				lenOK := false
+				if b, isB := mk.Len.(*ssa.BinOp); isB && b.Op == token.ADD {
+					if k, isK := constInt(b.Y); isK && k == 2 {
+						if l, isL := b.X.(*ssa.Call); isL && builtinName(l) == "len" && strip(l.Common().Args[0]) == ssa.Value(recv) {
+							lenOK = true
+						}
+					}
+				}
+				nCopy, copyOK, other := 0, false, false
+				for _, u := range usesOf(mk) {
+					switch y := u.(type) {
+					case *ssa.Slice:
+						lo, okLo := constInt(y.Low)
+						for _, uu := range usesOf(y) {
+							if cl, isC := uu.(*ssa.Call); isC && builtinName(cl) == "copy" && cl.Common().Args[0] == ssa.Value(y) {
+								nCopy++
+								if okLo && lo == 1 && y.High == nil && strip(cl.Common().Args[1]) == ssa.Value(recv) {
+									copyOK = true
+								}
+							} else if _, isD := uu.(*ssa.DebugRef); !isD {
+								other = true
+							}
+						}
+					case *ssa.Return, *ssa.DebugRef:
+					default:
+						other = true
+					}
+				}
+				if lenOK && nCopy == 1 && copyOK && !other {
+					sg, ok = []string{"0", "recv", "0"}, true
+				}
+			}
+		}
+		if !ok {
+			okP, whyP = false, "the encoder's result is not assembled from a zero octet, the receiver's bytes and a zero terminator (a transcoding, filtering or trimming step lies between the value and the payload)"
+			continue
+		}
+		if strings.Join(sg, " ") != "0 recv 0" {
+			okP, whyP = false, "the encoder writes ["+strings.Join(sg, " ")+"], not [0 characters 0]"
+		}
+	}
+	if nRet == 0 {
+		okP, whyP = false, "the encoder has no return"
+	}
+	c.Decide(okU && okP, "C06.identity", key, pos, "decoder: string(data[1:len(data)-1]); encoder: 0, the same bytes, 0", strings.TrimSpace(why+" "+whyP))
+}
+
+// checkDecodeInputReadOnly: a decoder reads its payload and never writes to
+// it.  The payload is the caller's buffer (the telegram that is decoded a
+// second time, logged or relayed afterwards); append on a sub-slice of it
+// has spare capacity up to the end of the payload and writes there, copy
+// into it and element stores change it directly.  Followed into the module
+// functions the payload (or a sub-slice) is handed to.
+func checkDecodeInputReadOnly(c *Check, p *Program, dts []dptType, rule string) {
+	type key struct {
+		fn  *ssa.Function
+		idx int
+	}
+	memo := map[key]string{}
+	var writes func(fn *ssa.Function, idx int, depth int) string
+	writes = func(fn *ssa.Function, idx int, depth int) string {
+		k := key{fn, idx}
+		if r, ok := memo[k]; ok {
+			return r
+		}
+		memo[k] = ""
+		if depth > 4 || fn == nil || len(fn.Blocks) == 0 || idx >= len(fn.Params) {
+			return ""
+		}
+		derived := map[ssa.Value]bool{fn.Params[idx]: true}
+		for changed := true; changed; {
+			changed = false
+			instrsOf(fn, func(in ssa.Instruction) {
+				v, ok := in.(ssa.Value)
+				if !ok || derived[v] {
+					return
+				}
+				switch x := in.(type) {
+				case *ssa.Slice:
+					if derived[x.X] {
+						derived[v], changed = true, true
+					}
+				case *ssa.ChangeType:
+					if derived[x.X] {
+						derived[v], changed = true, true
+					}
+				case *ssa.Phi:
+					for _, e := range x.Edges {
+						if derived[e] {
+							derived[v], changed = true, true
+						}
+					}
+				}
+			})
+		}
+		res := ""
+		instrsOf(fn, func(in ssa.Instruction) {
+			if res != "" {
+				return
+			}
+			switch x := in.(type) {
+			case *ssa.Store:
+				if ia, ok := x.Addr.(*ssa.IndexAddr); ok && derived[ia.X] {
+					res = "stores into the payload at " + p.InstrPos(x)
+				}
+			case *ssa.Call:
+				cc := x.Common()
+				switch builtinName(x) {
+				case "append":
+					if derived[cc.Args[0]] {
+						res = "appends to a sub-slice of the payload (its spare capacity is the rest of the payload) at " + p.InstrPos(x)
+					}
+					return
+				case "copy":
+					if derived[cc.Args[0]] {
+						res = "copies into the payload at " + p.InstrPos(x)
+					}
+					return
+				case "":
+				default:
+					return
+				}
+				callee := cc.StaticCallee()
+				for i, a := range cc.Args {
+					if !derived[a] {
+						continue
+					}
+					if callee != nil && p.InModule(callee) {
+						if w := writes(callee, i, depth+1); w != "" {
+							res = "hands the payload to " + FuncName(callee) + ", which " + w
+						}
+					} else if obj := calleeObj(x); obj != nil && (strings.HasPrefix(obj.Name(), "PutUint") || obj.Name() == "Read" || obj.Name() == "ReadFull") {
+						res = "hands the payload to " + obj.FullName() + ", which writes into its argument, at " + p.InstrPos(x)
+					}
+				}
+			}
+		})
+		memo[k] = res
+		return res
+	}
+	n := 0
+	for _, dt := range dts {
+		if dt.Unpack == nil || len(dt.Unpack.Params) != 2 {
+			continue
+		}
+		n++
+		w := writes(dt.Unpack, 1, 0)
+		c.Decide(w == "", rule, dptName(dt)+".Unpack leaves the payload as it is", p.Pos(dt.Unpack.Pos()), "no store, append or copy with the payload (or a sub-slice of it) as destination, in the decoder or the helpers it hands the payload to", "the decoder "+w+": the caller's telegram changes while it is decoded, a second look at it gives another value")
+	}
+	c.Floor(rule, "decoders judged", n, 174)
 }
